@@ -95,6 +95,12 @@ def gen_cases(tier, seed):
         cases.append(mk(fn, t, cached=rng.random() < 0.5, filt=filt, stop=stop, ml=ml, lo=bound(), hi=bound(),
                         attrs=attrs, value=rng.randint(0, 1)))
     gen.sprinkle_adv(cases)
+    k = 0
+    for c in cases:
+        if c["fn"].endswith("by_attr") and "adv" not in c and c["attrs"]:
+            k += 1
+            if k % 4 == 0:
+                c["via"] = "class" if k % 8 == 0 else "property"
     dist = {"exhaustive_cases": nexh, "random_cases": nrand, "by_fn": {}, "by_tree_size": {}}
     for c in cases:
         dist["by_fn"][c["fn"]] = dist["by_fn"].get(c["fn"], 0) + 1
